@@ -253,6 +253,29 @@ def traced_facts(prog: Program, interp: Interp, cr: ClientRoles) -> Tuple[Dict[s
             problems.append(('TRACE-ORDER', f'{name} loop iterates {norm(it)[:40]}', head.line,
                              f'tracers must be notified in configuration order: `for … in {norm(it)}` is not a direct iteration of the '
                              f'configured tracer sequence'))
+        elif d is not None:
+            # ... and that attribute holds the configured tracers as given: every constructor of the class hierarchy that stores it stores
+            # the argument itself or a list / tuple copy of it — no filter, sort or de-duplication (a tracer dropped at construction
+            # time sees neither the begin nor a completion of any attempt)
+            attr = d[len('self.'):]
+            for c_ in prog.mro(cr.cls):
+                if not (isinstance(c_, ClassInfo) and '__init__' in c_.methods):
+                    continue
+                init_ = c_.methods['__init__']
+                ipar = {p.arg for p in init_.params}
+                for st in walk_own(init_.node):
+                    tg_ = st.targets[0] if isinstance(st, ast.Assign) and len(st.targets) == 1 else getattr(st, 'target', None) if isinstance(st, ast.AnnAssign) else None
+                    if tg_ is None or dotted(tg_) != d or getattr(st, 'value', None) is None:
+                        continue
+                    v_ = st.value
+                    while isinstance(v_, ast.Call) and dotted(v_.func) in ('list', 'tuple') and len(v_.args) == 1 and not v_.keywords:
+                        v_ = v_.args[0]
+                    if not (isinstance(v_, ast.Name) and v_.id in ipar):
+                        key_ = ('TRACE-ORDER', f'configured tracers altered when stored: {norm(st.value)[:40]}', st.lineno,
+                                f'`{norm(st)[:90]}`: self.{attr} must be the configured sequence as given (same tracers, same order); '
+                                f'`{norm(st.value)[:70]}` can drop or reorder tracers — e.g. a tracer object that is falsy when the client is built')
+                        if key_ not in problems:
+                            problems.append(key_)
         if call.args:
             ctx_vars.add(dotted(call.args[0]) or norm(call.args[0]))
         req_ok = len(call.args) > 1 and dotted(call.args[1]) == f.params[1].arg
